@@ -86,6 +86,8 @@ type gl struct {
 	recLocal    map[types.Object]bool // struct-pointer locals holding a record under construction
 	retSuffix   []string              // receiver fields handed back with every result
 	u64AsInt    bool
+	byteRd      bool // *bufio.Reader is used through ReadByte/UnreadByte: the abstract ByteRd
+	pendLabel   string
 	synthRhs    map[ast.Expr]string
 }
 
@@ -308,6 +310,9 @@ func (g *gl) leanType(t types.Type) string {
 	}
 	if p, ok := t.(*types.Pointer); ok {
 		if n, ok := p.Elem().(*types.Named); ok && n.Obj().Pkg() != nil && n.Obj().Pkg().Path() == "bufio" && n.Obj().Name() == "Reader" {
+			if g.byteRd {
+				return "ByteRd"
+			}
 			return "BufRd"
 		}
 	}
@@ -1409,6 +1414,15 @@ func (g *gl) heapCall(c *ast.CallExpr) (string, bool, bool) {
 // readStringCall: c is <recv>.<field>.ReadString(delim) on a receiver field of type *bufio.Reader
 func (g *gl) readStringCall(c *ast.CallExpr) (string, string, bool) {
 	sel, ok := c.Fun.(*ast.SelectorExpr)
+	if ok && sel.Sel.Name == "ReadByte" && len(c.Args) == 0 && g.byteRd {
+		if inner, ok := sel.X.(*ast.SelectorExpr); ok {
+			if id, ok := inner.X.(*ast.Ident); ok && g.structLoc[g.objOf(id)] != nil {
+				if tv, ok := g.info.Types[inner]; ok && g.leanTypeOK(tv.Type) == "ByteRd" {
+					return id.Name + "_" + inner.Sel.Name, "", true
+				}
+			}
+		}
+	}
 	if !ok || sel.Sel.Name != "ReadString" || len(c.Args) != 1 {
 		return "", "", false
 	}
@@ -1687,7 +1701,11 @@ func (g *gl) stmt(w *wr, s ast.Stmt) {
 					nproj := tup.Len()
 					if fld, delim, ok := g.readStringCall(c); ok {
 						// line, err := r.r.ReadString(d): the reader field is a state that the call advances
-						w.line("let " + t + " := readString " + fld + " " + delim)
+						if delim == "" {
+							w.line("let " + t + " := readByte " + fld)
+						} else {
+							w.line("let " + t + " := readString " + fld + " " + delim)
+						}
 						w.line(fld + " := " + t + ".2.2")
 						nproj = 3
 					} else {
@@ -1914,6 +1932,13 @@ func (g *gl) stmt(w *wr, s ast.Stmt) {
 			return
 		}
 	case *ast.LabeledStmt:
+		if g.rdKind == "" {
+			if _, isFor := v.Stmt.(*ast.ForStmt); isFor {
+				g.pendLabel = v.Label.Name
+				g.stmt(w, v.Stmt)
+				return
+			}
+		}
 		if g.rdKind == "bytes" {
 			g.rdLabel = v.Label.Name
 			g.stmt(w, v.Stmt)
@@ -1929,13 +1954,33 @@ func (g *gl) stmt(w *wr, s ast.Stmt) {
 			w.line("continue")
 			return
 		}
+		if v.Tok == token.BREAK && v.Label != nil && g.rdKind == "" {
+			// a labelled break is translated only when it leaves the INNERMOST loop (switches in between are
+			// if-chains in Lean, so Lean's `break` leaves that loop)
+			for k := len(g.loops) - 1; k >= 0; k-- {
+				e := g.loops[k]
+				if e == "switch" {
+					continue
+				}
+				parts := strings.Split(e, ":")
+				if parts[len(parts)-1] != "@"+v.Label.Name {
+					g.die(v, "labelled break out of an outer loop")
+				}
+				if parts[0] == "while" {
+					w.line("done_" + parts[1] + " := true")
+				}
+				w.line("break")
+				return
+			}
+			g.die(v, "labelled break outside a loop")
+		}
 		if v.Tok == token.BREAK && v.Label == nil && len(g.loops) > 0 {
 			switch top := g.loops[len(g.loops)-1]; {
-			case top == "for":
+			case top == "for" || strings.HasPrefix(top, "for:"):
 				w.line("break")
 				return
 			case strings.HasPrefix(top, "while:"):
-				w.line("done_" + strings.TrimPrefix(top, "while:") + " := true")
+				w.line("done_" + strings.Split(top, ":")[1] + " := true")
 				w.line("break")
 				return
 			}
@@ -1975,6 +2020,17 @@ func (g *gl) stmt(w *wr, s ast.Stmt) {
 	case *ast.ExprStmt:
 		if c, ok := v.X.(*ast.CallExpr); ok && g.accumStmt(w, c) {
 			return
+		}
+		if c, ok := v.X.(*ast.CallExpr); ok && g.byteRd && g.rdKind == "" {
+			if sel, ok := c.Fun.(*ast.SelectorExpr); ok && sel.Sel.Name == "UnreadByte" && len(c.Args) == 0 {
+				if inner, ok := sel.X.(*ast.SelectorExpr); ok {
+					if id, ok := inner.X.(*ast.Ident); ok && g.structLoc[g.objOf(id)] != nil {
+						fld := id.Name + "_" + inner.Sel.Name
+						w.line(fld + " := unreadByte " + fld) // the returned error is ignored by the Go code too
+						return
+					}
+				}
+			}
 		}
 		if isPanic(v) {
 			w.line("(none : Option Unit)")
@@ -2355,27 +2411,59 @@ func (g *gl) forStmt(w *wr, v *ast.ForStmt) {
 	if g.readByteLoop(w, v) {
 		return
 	}
+	label := g.pendLabel
+	g.pendLabel = ""
 	if v.Init == nil && v.Post == nil && v.Cond == nil && g.rdKind == "" && g.yieldT == "" {
-		// for { … }: left only by return; at most `fuel` iterations, out of fuel = `none` (no claim)
+		// for { … }: at most `fuel` iterations, out of fuel = `none` (no claim)
 		hasBreak := false
-		ast.Inspect(v.Body, func(n ast.Node) bool {
-			switch x := n.(type) {
-			case *ast.ForStmt, *ast.RangeStmt, *ast.SwitchStmt, *ast.SelectStmt, *ast.FuncLit:
-				return n == ast.Node(v.Body) || x == nil
-			case *ast.BranchStmt:
-				if x.Tok == token.BREAK {
-					hasBreak = true
+		var scan func(n ast.Node, direct bool)
+		scan = func(n ast.Node, direct bool) {
+			ast.Inspect(n, func(x ast.Node) bool {
+				switch y := x.(type) {
+				case *ast.FuncLit:
+					return false
+				case *ast.ForStmt:
+					if x != n {
+						scan(y.Body, false)
+						return false
+					}
+				case *ast.RangeStmt:
+					scan(y.Body, false)
+					return false
+				case *ast.SwitchStmt:
+					scan(y.Body, false)
+					return false
+				case *ast.SelectStmt:
+					return false
+				case *ast.BranchStmt:
+					if y.Tok == token.BREAK && ((y.Label == nil && direct) || (y.Label != nil && label != "" && y.Label.Name == label)) {
+						hasBreak = true
+					}
 				}
-			}
-			return true
-		})
-		if hasBreak {
-			g.die(v, "for { } with break")
+				return true
+			})
 		}
+		scan(v.Body, true)
 		g.usesFuel = true
+		if hasBreak {
+			g.nWhile++
+			k := fmt.Sprintf("%d", g.nWhile)
+			w.line("let mut done_" + k + " := false")
+			w.line("for _ in List.range fuel do")
+			w.ind++
+			g.loops = append(g.loops, "while:"+k+":@"+label)
+			g.block(w, v.Body.List)
+			g.loops = g.loops[:len(g.loops)-1]
+			w.ind--
+			w.line("if !done_" + k + " then")
+			w.ind++
+			w.line("(none : Option Unit)")
+			w.ind--
+			return
+		}
 		w.line("for _ in List.range fuel do")
 		w.ind++
-		g.loops = append(g.loops, "for")
+		g.loops = append(g.loops, "for:@"+label)
 		g.block(w, v.Body.List)
 		g.loops = g.loops[:len(g.loops)-1]
 		w.ind--
@@ -2395,7 +2483,7 @@ func (g *gl) forStmt(w *wr, v *ast.ForStmt) {
 		w.line("done_" + k + " := true")
 		w.line("break")
 		w.ind--
-		g.loops = append(g.loops, "while:"+k)
+		g.loops = append(g.loops, "while:"+k+":@"+label)
 		g.block(w, v.Body.List)
 		g.loops = g.loops[:len(g.loops)-1]
 		w.ind--
@@ -3862,6 +3950,12 @@ func goLean(repo, out string) {
 		w.WriteString(g9.funcs[n].text)
 		w.WriteString("\n")
 	}
+	// formats/newick: the tokenizer.  The receiver's *bufio.Reader (ReadByte/UnreadByte) is the abstract ByteRd,
+	// its *bytes.Buffer the bytes written so far; both are state handed back with the result
+	g2.recT, g2.byteRd = map[string]bool{}, true
+	g2.method("reader", "nextToken", "newick_nextToken", "formats/newick", "def newick_nextToken (fuel : Nat) (r_r : ByteRd) (r_b : "+B+") : Option (("+B+") × GoErr × ByteRd × ("+B+")) := none")
+	g2.recT, g2.byteRd = nil, false
+	w.WriteString(g2.funcs["newick_nextToken"].text + "\n")
 	g8 := loadPkg(filepath.Join(repo, "formats", "bed"))
 	// the read side: parseLine and (*reader).read.  *BED is an Option tuple, *bufio.Reader the abstract BufRd,
 	// strconv.Atoi / strconv.ParseUint are parameters
